@@ -41,7 +41,7 @@ def main(c):
         c.cov["binding_selftest"] = vselftest.run(c, specs, "RefTerm_Trace.tla", "RefTerm_Trace.cfg", td, {r["scn"] for r in rejects}, [
             ("frame: glyph of cell (0,0)", selfmut.frame_glyph()),
             ("frame: cursor row", selfmut.frame_cursor),
-            ("stream: print dropped", selfmut.print_dropped),
+            ("stream: last glyph sent differs", selfmut.print_dropped),
 ])
     idx = c.load_index(td)
     c.count_distinct(idx)
